@@ -7,6 +7,7 @@ from .. import gens
 from ..harness import Sub, Violation, import_repo
 from ..refs import gemini_ref as R
 from ..objs import make_mmd, make_wass, FDIV
+from .. import objs
 
 import_repo()
 import gemclus.gemini as G  # noqa: E402
@@ -33,7 +34,7 @@ def check_score(g, P, A, base, ovo, label):
         v = float(np.asarray(v))
         if not np.isfinite(v) or abs(v - ref) > R.score_tol(base, A, ref):
             raise Violation(f"{label}: library score {v!r} != defining distance {ref!r} "
-                            f"(tolerance {R.score_tol(base, A, ref):.3g}) for P={P.tolist()}")
+                            f"(tolerance {R.score_tol(base, A, ref):.3g})" + (f" for P={P.tolist()}" if P.size <= 40 else f" for P of shape {P.shape}"))
     floor = 0.5 if base == "chi2" else 0.0
     return ref, (len(P) >= 2 and ref > floor + 1e-6)
 
@@ -145,8 +146,30 @@ def oracle_registry(case):
     return {"nontrivial": nt, "classes": [f"name:{name}"], "note": {"score": ref}}
 
 
+# ------------------------------------------------------------------------------------------------ large shapes
+@st.composite
+def large_case(draw):
+    gs = draw(objs.gemini_spec(kernel_forms=("named", "psd", "precomputed"), metric_forms=("named", "randdist")))
+    if gs["base"] == "wasserstein":
+        p = draw(gens.p_spec(n_min=9, n_max=26, k_max=4))
+    else:
+        p = draw(gens.p_spec(n_min=20, n_max=320, k_min=2, k_max=48))
+    return {"g": gs, "p": p, "x": draw(gens.x_spec())}
+
+
+def oracle_large(case):
+    gs = case["g"]
+    P = gens.build_P(case["p"])
+    X = gens.build_X(case["x"], len(P), nonneg=objs.gs_needs_nonneg(gs))
+    g, A, label = objs.make_gemini(gs, X)
+    ref, nt = check_score(g, P, A, gs["base"], gs["ovo"], label + f" n={len(P)} K={P.shape[1]}")
+    return {"nontrivial": nt, "classes": [objs.gs_class(gs), f"n>={50 * (len(P) // 50)}", f"K>={8 * (P.shape[1] // 8)}"],
+            "note": {"score": ref}}
+
+
 def subs():
     return [
+        Sub("large_shapes", large_case(), oracle_large, 600, 12000, "n up to 320 and K up to 48 (size thresholds, blocked code paths)"),
         Sub("fdivergences", fdiv_case(), oracle_fdiv, 6000, 100000, "4 f-divergence classes x ovo (+MI shortcut)"),
         Sub("mmd", mmd_case(), oracle_mmd, 4000, 60000, "MMDGEMINI over kernel forms"),
         Sub("wasserstein", wass_case(), oracle_wass, 1500, 20000, "WassersteinGEMINI over metric forms, LP reference"),
